@@ -511,8 +511,8 @@ fn checked_f32_sub(a: f32, b: f32) -> Option<f32> {
     debug_assert!(b.is_finite());
 
     let n = a as f64 - b as f64;
-    // Not sure if this is perfectly correct.
-    if n > f32::MIN as f64 && n < f32::MAX as f64 {
+    // The documented guarantee is `width/height <= f32::MAX`, so the bounds are inclusive.
+    if n >= f32::MIN as f64 && n <= f32::MAX as f64 {
         Some(n as f32)
     } else {
         None
